@@ -19,7 +19,7 @@
 EXTENDS Integers, Sequences
 CONSTANTS Add(_,_), Sub(_,_), Mul(_,_), Div(_,_), Lt(_,_), Le(_,_), Eq(_,_,_), Dec(_), Num(_),
           Dev       \* "none", or a NAMED wrong design used by negative configurations:
-                    \* "mass_one_flux" | "comp_next_mass" | "time_shift" | "no_pop" | "iso_heats_as_written"
+                    \* "mass_one_flux" | "comp_next_mass" | "time_shift" | "no_pop" | "area_once" | "iso_heats_as_written"
                     \* ("iso_heats_as_written" is defect D1 of the original isothermal models)
 VARIABLES run, time, m, x, T, J, y, P, Qe, Qc, pc
 
@@ -30,7 +30,7 @@ NoHeat == "none"                                   \* the None entry of permeate
 
 (* ----------------------------- the step functions ----------------------------- *)
 D1(r, e) == Mul(Mul(e.J1, r.A), r.dt)
-D2(r, e) == Mul(Mul(e.J2, r.A), r.dt)
+D2(r, e) == IF Dev = "area_once" THEN Mul(e.J2, r.dt) ELSE Mul(Mul(e.J2, r.A), r.dt)
 QevapOf(r, e) == IF Dev = "iso_heats_as_written" /\ r.iso
                  THEN Add(Mul(e.h1, D1(r, e)), Mul(Mul(e.h2, e.massratio), D2(r, e)))   \* h2 / M1 instead of h2 / M2
                  ELSE Add(Mul(e.h1, D1(r, e)), Mul(e.h2, D2(r, e)))
@@ -77,6 +77,15 @@ Step(e) ==
         /\ T'  = IF run.iso THEN T ELSE Append(T, TempNext(mk, xk, Tk, run, e))
         /\ P'  = IF run.ideal THEN (IF run.iso THEN P ELSE Append(P, e.P)) ELSE Append(P, e.Pnext)
   /\ UNCHANGED <<run, time, pc>>
+
+\* precondition of Step (used by the twin product to state that both runs step, or both raise)
+CanStep(e) ==
+  /\ pc = "loop" /\ Len(J) < run.N
+  /\ LET k == Len(J) + 1
+         Tk == IF run.iso THEN run.T0 ELSE T[k]
+     IN /\ (run.guarded => Admissible(m[k], Tk))
+        /\ ValidFraction(YOf(e))
+        /\ ValidFraction(CompNext(m[k], x[k], run, e))
 
 \* the step cannot be taken: the model raises (inadmissible state, or a fraction outside [0,1])
 Raise(e) ==
